@@ -413,6 +413,54 @@ func applyBaseline(prog *ssa.Program, all map[*ssa.Function]bool) []string {
 						progress = true
 					}
 				}
+				if len(same) == 0 && b.Recv != "" {
+					// renamed AND turned into a function that is handed fields of the former receiver
+					var lifted []cand
+					for _, f := range fresh {
+						if used[f] || f.Pkg == nil || short(f.Pkg.Pkg.Path()) != b.Pkg || f.Signature.Recv() != nil {
+							continue
+						}
+						// compare modulo new helpers (error constructors, ...) and modulo the receiver
+						// fields that became parameters
+						feats := map[string]bool{}
+						for _, k := range describeFn(f).Features {
+							feats[k] = true
+						}
+						for _, h := range fresh {
+							if feats["call:"+aliasedFnName(h)] && h != f {
+								delete(feats, "call:"+aliasedFnName(h))
+								for _, k := range describeFn(h).Features {
+									feats[k] = true
+								}
+							}
+						}
+						var fs, bs []string
+						for k := range feats {
+							fs = append(fs, k)
+						}
+						recvFields := map[string]bool{}
+						if rt := namedStructs(prog)[strings.TrimPrefix(b.Recv, "*")]; rt != nil {
+							for i := 0; i < rt.NumFields(); i++ {
+								recvFields["field:"+fldName(rt.Field(i))] = true
+							}
+						}
+						for _, k := range b.Features {
+							if !recvFields[k] {
+								bs = append(bs, k)
+							}
+						}
+						if s := jaccard(bs, fs); s >= 0.6 {
+							lifted = append(lifted, cand{f, s})
+						}
+					}
+					if len(lifted) == 1 && liftParams(prog, lifted[0].f, b, all) {
+						fnAlias[lifted[0].f] = b.Name
+						used[lifted[0].f] = true
+						notes = append(notes, fmt.Sprintf("function %s is addressed as %s (renamed, method turned into a function over fields of the receiver; body similarity %.2f)", short(lifted[0].f.String()), b.Name, lifted[0].s))
+						resolved[b.Name] = true
+						progress = true
+					}
+				}
 				continue
 			}
 			if cs[0].s >= 0.6 && (len(cs) == 1 || cs[1].s <= cs[0].s-0.25) {
